@@ -34,6 +34,14 @@ def obsString (l : Line) : String :=
 def returnedClaims (l : Line) : Claims :=
   { iss := str l "o.iss", sub := str l "o.sub", aud := list l "o.aud", exp := int l "o.exp", iat := int l "o.iat" }
 
+/-- (deep 4) the subject check this provider's verifier is configured with (`v.subjcheck`): `all` admits every subject, `table`
+    admits sub = iss and the listed pairs `iss>sub`; absent: the default -/
+def subjCheckOf (l : Line) : Option (Claims → Bool) :=
+  match str l "v.subjcheck" with
+  | "all" => some fun _ => true
+  | "table" => let tb := list l "v.subjtable"; some fun c => c.sub == c.iss || tb.contains (c.iss ++ ">" ++ c.sub)
+  | _ => none
+
 /-- an `endpoint` line: the request as addressed, and what the endpoint was observed to do -/
 def epReq (l : Line) : C14.EndpointReq :=
   let iss := str l "c.iss"
@@ -42,7 +50,8 @@ def epReq (l : Line) : C14.EndpointReq :=
     requestedScopes := list l "scope.req", refusedScopes := list l "scope.forbidden", helperMade := str l "mint" == "helper" && bool l "proper",
     clientAuth := str l "ep" != "bearer", registeredMethod := method,
     contextOK := bool l "ctx.ok",
-    libraryAddressed := (str l "wire" == "tokensource" || str l "wire" == "rsintrospect") && bool l "ctx.ok" }
+    libraryAddressed := (str l "wire" == "tokensource" || str l "wire" == "rsintrospect") && bool l "ctx.ok",
+    subjectCheck := subjCheckOf l }
 
 def epObs (l : Line) : C14.EndpointObs :=
   { accepted := str l "obs" == "ok", identity := opt l "o.id", scopes := if has l "o.scope" then some (list l "o.scope") else none }
@@ -85,7 +94,7 @@ def monitorLine (l : Line) : Option String :=
   | _ => some "bad-kind"
 
 def lineClass (l : Line) : String :=
-  if str l "kind" == "endpoint" then s!"endpoint:{str l "router"}:{str l "ep"}:{str l "mint"}:aud-{str l "aud"}:{str l "order"}:{str l "vlife"}:{str l "wire"}:{str l "obs"}"
+  if str l "kind" == "endpoint" then s!"endpoint:{str l "router"}:{str l "ep"}:{str l "mint"}:aud-{str l "aud"}:{str l "order"}:{str l "vlife"}:{str l "wire"}:{if has l "v.subjcheck" then "subj-" ++ str l "v.subjcheck" ++ "-" ++ str l "subrel" ++ ":" else ""}{str l "obs"}"
   else if str l "kind" == "roendpoint" then s!"roendpoint:{str l "router"}:{str l "issmode"}:ro-{str l "ro.supported"}:aud-{str l "aud"}:{str l "signer"}:{str l "obs"}"
   else if str l "kind" == "mint" then s!"mint:{str l "family"}:{str l "h.form"}:{str l "h.obs"}:{obsString l}"
   else if str l "kind" == "seq" then s!"seq:{str l "via"}:{str l "vlife"}:{str l "rel"}:{str l "variant"}:signer-{str l "signer"}:{obsString l}"
